@@ -35,6 +35,7 @@ ALLOC_CALLS = {
 }
 DIV_METHODS = {'wrapping_div', 'wrapping_rem', 'wrapping_div_euclid', 'wrapping_rem_euclid', 'div_euclid', 'rem_euclid',
                'overflowing_div', 'overflowing_rem', 'saturating_div', 'div_ceil', 'next_multiple_of'}
+SWAP_OPS = {'Lt': 'Gt', 'Gt': 'Lt', 'Le': 'Ge', 'Ge': 'Le', 'Eq': 'Eq', 'Ne': 'Ne'}
 INDEX_CALLS = {'core::ops::Index::index': 'index', 'core::ops::IndexMut::index_mut': 'index_mut'}
 
 
@@ -111,7 +112,7 @@ def enumerate_sites(g, fn):
                 base = st.replace('&mut ', '').replace('&', '')
                 if f.get('self_param') or is_int_ty(base) or base.endswith('::Offset'):
                     # resolved to core integer impl or generic offset
-                    if res and not res.startswith('core::') and not f.get('self_param'):
+                    if res and not res.lstrip('<&').startswith('core::') and not f.get('self_param'):
                         continue   # user-defined operator impl: analysed as its own body
                     op = ARITH_TRAITS[path]
                     args = t['a']
@@ -122,6 +123,10 @@ def enumerate_sites(g, fn):
                     rhs = fn.fmt_op(args[1]) if len(args) > 1 else ''
                     expr = ('%s %s %s' % (lhs, op, rhs)) if rhs else ('%s %s' % (op, lhs))
                     sites.append(Site(fn, bi, 'OffsetArith(%s)' % op, expr, line, mac, args, base))
+                elif base.startswith('core::num::Wrapping<') and ARITH_TRAITS[path] in ('Div', 'Rem'):
+                    # Wrapping<T> wraps on overflow but still panics on a zero divisor
+                    expr = '%s %s %s' % (fn.fmt_op(t['a'][0], 4), ARITH_TRAITS[path], fn.fmt_op(t['a'][1], 4))
+                    sites.append(Site(fn, bi, 'divcall(Wrapping::%s)' % ARITH_TRAITS[path].lower(), expr, line, mac, t['a']))
             elif (res or path).startswith('core::num::') and name in DIV_METHODS and len(t['a']) == 2:
                 expr = '%s.%s(%s)' % (fn.fmt_op(t['a'][0], 4), name, fn.fmt_op(t['a'][1], 4))
                 sites.append(Site(fn, bi, 'divcall(%s)' % name, expr, line, mac, t['a']))
@@ -140,7 +145,7 @@ def enumerate_sites(g, fn):
                     ity = _operand_ty(fn, t['a'][1])
                     if ity == 'core::ops::RangeFull':
                         continue
-                    if res and not (res.startswith('core::') or res.startswith('alloc::')):
+                    if res and not res.lstrip('<&').startswith(('core::', 'alloc::', '[')):
                         continue    # user Index impl (own body analysed)
                     expr = '%s[%s]' % (_deref_text(fn, t['a'][0]), fn.fmt_op(t['a'][1], 4))
                     sites.append(Site(fn, bi, 'index', expr, line, mac, t['a'], ity))
@@ -336,6 +341,29 @@ def discharge(site, ev):
             rel = ev.known_rel(ix, ln, bb)
             if 'Lt' in rel:
                 return _ok(site, 'guarded index: dominating guard index < len')
+            return
+        if k == 'index' and len(site.ops) >= 2 and site.ty == 'usize':
+            # `v[i]` on a Vec/slice/array with a dominating guard `i < v.len()` on the same container (no store to i or
+            # a `&mut` use of the container in between is checked by `stable`)
+            cont = _deref_text(fn, site.ops[0])
+            ix = site.ops[1]
+            # `v[x as usize]` guarded by `x < v.len() as u64`: compare in the wider type (x < len <= usize::MAX, so the cast is exact)
+            ixs = [ix]
+            rvd = _def_rv(fn, ix)
+            if rvd is not None and rvd[0] == 'cast' and rvd[1] == 'IntToInt':
+                ixs.append(rvd[2])
+            for (opn, x, y, gb) in ev.cond_facts(bb):
+                for lhs, rhs, o2 in ((x, y, opn), (y, x, SWAP_OPS.get(opn))):
+                    if o2 != 'Lt' or not any(ev.same(lhs, i_) and ev.stable(i_, gb, bb) for i_ in ixs):
+                        continue
+                    rvr = _def_rv(fn, rhs)
+                    if rvr is not None and rvr[0] == 'cast' and rvr[1] == 'IntToInt' and rvr[2][0] in ('c', 'm'):
+                        rhs = rvr[2]
+                    if rhs[0] in ('c', 'm') and len(rhs[1]) == 1:
+                        sd = fn.single_def(rhs[1][0])
+                        if sd is not None and sd[1] == 'term' and sd[2]['f'].get('name') == 'len' and sd[2]['a'] \
+                                and _deref_text(fn, sd[2]['a'][0]) == cont and ev.stable(rhs, gb, bb):
+                            return _ok(site, 'guarded index: dominating guard index < %s.len()' % cont)
             return
         if k.startswith('divcall('):
             d = site.ops[1]
